@@ -62,6 +62,8 @@ def opFromJson (j : Json) : Except String Op := do
   | .str "repr" => pure .repr
   | .str "pickle" => pure .pickle
   | .str "fields" => pure .fields
+  | .str "hash" => pure .hash
+  | .str "asDictDefault" => pure .asDictDefault
   | _ =>
     if let .ok x := j.getObjVal? "getIdx" then pure (.getIdx (← (← x.getObjVal? "i").getInt?))
     else if let .ok x := j.getObjVal? "getKey" then pure (.getKey (← valFromJson (← x.getObjVal? "k")))
@@ -71,12 +73,19 @@ def opFromJson (j : Json) : Except String Op := do
     else if let .ok x := j.getObjVal? "eq" then pure (.eq (← valFromJson (← x.getObjVal? "other")))
     else if let .ok x := j.getObjVal? "lt" then pure (.lt (← valFromJson (← x.getObjVal? "other")))
     else if let .ok x := j.getObjVal? "setAttr" then pure (.setAttr (← (← x.getObjVal? "name").getStr?))
+    else if let .ok x := j.getObjVal? "setFields" then do
+      let ns : List String ← fromJson? (← x.getObjVal? "names"); pure (.setFields ns)
+    else if let .ok x := j.getObjVal? "delAttr" then pure (.delAttr (← (← x.getObjVal? "name").getStr?))
+    else if let .ok x := j.getObjVal? "ne" then pure (.ne (← valFromJson (← x.getObjVal? "other")))
+    else if let .ok x := j.getObjVal? "le" then pure (.le (← valFromJson (← x.getObjVal? "other")))
+    else if let .ok x := j.getObjVal? "getSlice" then
+      pure (.getSlice (← (← x.getObjVal? "i").getInt?) (← (← x.getObjVal? "j").getInt?))
     else .error s!"bad op {j.compress}"
 
 def errName : Err → String
   | .rowError => "rowError" | .psValueError => "psValueError" | .psTypeError => "psTypeError"
   | .keyError => "keyError" | .indexError => "indexError" | .attributeError => "attributeError"
-  | .typeError => "typeError" | .runtimeError => "runtimeError"
+  | .typeError => "typeError" | .runtimeError => "runtimeError" | .valueError => "valueError"
 
 def outToJson : Out → Json
   | .val v => Json.mkObj [("val", valToJson v)]
@@ -84,6 +93,8 @@ def outToJson : Out → Json
   | .n i => Json.mkObj [("n", toJson i)]
   | .s x => Json.mkObj [("s", toJson x)]
   | .err e => Json.mkObj [("err", toJson (errName e))]
+  | .tup vs => Json.mkObj [("tup", valsToJson vs)]
+  | .callable => Json.mkObj [("callable", toJson true)]
 
 partial def dtypeFromJson (j : Json) : Except String DType := do
   if let .ok x := j.getObjVal? "atomic" then pure (.atomic (← x.getStr?))
@@ -100,5 +111,21 @@ partial def dtypeFromJson (j : Json) : Except String DType := do
       pure (n, d, nl))
     pure (.struct (fs.foldr (fun (x : String × DType × Bool) acc => SFields.cons x.1 x.2.1 x.2.2 acc) .nil))
   else .error s!"bad dtype {j.compress}"
+
+def selFromJson (j : Json) : Except String ArgSel := do
+  match (← j.getStr?) with
+  | "ae" => pure .ae | "ea" => pure .ea | "aa" => pure .aa | "ee" => pure .ee
+  | s => .error s!"bad argument selection {s}"
+
+def argFromJson (j : Json) : Except String Arg := do
+  match j with
+  | Json.null => pure .none
+  | _ =>
+    if let .ok x := j.getObjVal? "rows" then pure (.rows (← valsFromJson x).toList)
+    else if let .ok x := j.getObjVal? "frame" then
+      match (← dtypeFromJson (← x.getObjVal? "schema")) with
+      | .struct fs => pure (.frame fs (← valsFromJson (← x.getObjVal? "rows")).toList)
+      | _ => .error "a frame's schema must be a struct"
+    else .error s!"bad argument {j.compress}"
 
 end Sqlframe.C19
